@@ -107,6 +107,8 @@ pub struct MmapStorage {
     file: File,
     mmap: MmapMut,
     page_count: u32,
+    #[cfg(kahflane_turdb_verif)]
+    verif_path: std::path::PathBuf,
 }
 
 impl MmapStorage {
@@ -156,6 +158,8 @@ impl MmapStorage {
             file,
             mmap,
             page_count,
+            #[cfg(kahflane_turdb_verif)]
+            verif_path: path.to_path_buf(),
         })
     }
 
@@ -191,10 +195,14 @@ impl MmapStorage {
                 .wrap_err_with(|| format!("failed to memory-map '{}'", path.display()))?
         };
 
+        #[cfg(kahflane_turdb_verif)]
+        crate::verif::crash_point("mmap.create");
         Ok(Self {
             file,
             mmap,
             page_count: initial_page_count,
+            #[cfg(kahflane_turdb_verif)]
+            verif_path: path.to_path_buf(),
         })
     }
 
@@ -218,6 +226,8 @@ impl MmapStorage {
             self.page_count
         );
 
+        #[cfg(kahflane_turdb_verif)]
+        crate::verif::crash_point("mmap.page_mut");
         let offset = page_no as usize * PAGE_SIZE;
         Ok(&mut self.mmap[offset..offset + PAGE_SIZE])
     }
@@ -243,11 +253,24 @@ impl MmapStorage {
             unsafe { MmapMut::map_mut(&self.file).wrap_err("failed to remap file after grow")? };
 
         self.page_count = new_page_count;
+        #[cfg(kahflane_turdb_verif)]
+        crate::verif::crash_point("mmap.grow");
 
         Ok(())
     }
 
+    #[allow(unreachable_code)]
     pub fn sync(&self) -> Result<()> {
+        #[cfg(kahflane_turdb_verif)]
+        {
+            crate::verif::crash_point("mmap.sync.before");
+            let r = self.mmap.flush().wrap_err("failed to sync mmap to disk");
+            if r.is_ok() {
+                crate::verif::synced(&self.verif_path);
+            }
+            crate::verif::crash_point("mmap.sync.after");
+            return r;
+        }
         self.mmap.flush().wrap_err("failed to sync mmap to disk")
     }
 
